@@ -52,6 +52,11 @@ def check(rep):
     rep.bounds.append(f"(c) find_reference_citations_from_markup with both SpanUpdaters built from a symbolic script of <= {3 if quick else 4} blocks and its inverse, <= 2 tag matches after the citation")
     rep.assumptions.append("(c) the citation's span start lies in a block that is equal in plain text and markup")
     rep.distinct = rep.evaluations
+    from vf.harness import c19m
+
+    c19m.pattern_clause(rep)
+    c19m.pincite_pattern_clause(rep)
+    rep.bounds.append("(d) the markup search pattern and the name-pincite pattern built for one citation with a one-word plaintiff and a two-word defendant: regular-language inclusion over the whole alphabet (unbounded length)")
     for f in cex + cex2:
         if f["verdict"] != "cex":
             rep.inconc(f"{f['clause']}: solver verdict {f['verdict']}")
@@ -122,6 +127,12 @@ def oracle_markup(doc):
             s0, s1 = r.span()
             if not (0 <= s0 <= s1 <= len(plain)) or not any(f.span()[1] <= s0 for f in fulls):
                 bad.append(f"C19:reference {r.span()} does not lie after a full case citation / has invalid offsets")
+            else:
+                import re
+
+                names = [v for f in fulls if f.span()[1] <= s0 for k in M.ReferenceCitation.name_fields if (v := getattr(f.metadata, k, None))]
+                if not any(re.search(r"\s+".join(map(re.escape, v.split())), plain[s0:s1]) for v in names if v.split()):
+                    bad.append(f"C19:reference {r.span()} {plain[s0:s1]!r} contains no party or resolved name of an earlier full case citation")
     return bad
 
 
@@ -129,6 +140,15 @@ def replay_file(path):
     import json
 
     r = json.load(open(path))["replay"]
+    if r.get("kind") == "text":
+        import re
+
+        import eyecite.models as M
+        from eyecite import get_citations
+
+        bad = [r["text"][c.span()[0] : c.span()[1]] for c in get_citations(r["text"]) if isinstance(c, M.ReferenceCitation) and not re.search(r"Foo Bar|Baz", r["text"][c.span()[0] : c.span()[1]])]
+        print(bad)
+        return 1 if bad else 0
     bad = oracle_markup(r["markup"])
     print(bad)
     return 1 if bad else 0
